@@ -108,6 +108,8 @@ static void case_varopt(Rng& r) {
     n = sk->get_n();
     count(n >> 32 ? "varopt_n_at_or_above_2^32" : "varopt_n_just_below_2^32");
   }
+  bool has_long = false;
+  { T li; if (cls >= 1 && cls <= 7 && r.chance(0.08) && LongItem<T>::make(r, li)) { sk->update(li, 1e12); has_long = true; } }   // > 64 KiB item, heavy: stays in H
   describe(fam + " k=" + std::to_string(k) + " rf=" + std::to_string(static_cast<int>(rf)) + " " + desc + " n=" + std::to_string(n));
   count(fam + "_" + desc);
   sig(mix64(mix64(k, sk->get_n()), mix64(sk->get_num_samples(), std::hash<std::string>()(fam) + cls)));
@@ -120,7 +122,8 @@ static void case_varopt(Rng& r) {
   o.advertised = [](const S& s) { return static_cast<long long>(s.get_serialized_size_bytes(SD())); };
   o.observe = observe_vo<T>;
   o.cont = [k](S& s, Rng& cr) { vo_fill(s, cr.chance(0.3) ? cr.below(4) : cr.below(6 * k + 4), cr, cr.chance(0.3) ? 2 : 0); };
-  roundtrip(o, *sk, r, G().cur_desc);
+  const Result res = roundtrip(o, *sk, r, G().cur_desc);
+  if (has_long && res.ok && res.image.size() > 65536) count("varopt_long_string_in_image");
 }
 
 #endif
@@ -163,6 +166,8 @@ static void case_varopt_union(Rng& r) {
     sk->update(big); sk->update(big);
     count(sk->get_result().get_n() >> 32 ? "varopt_union_n_at_or_above_2^32" : "varopt_union_n_just_below_2^32");
   }
+  bool has_long = false;
+  { T li; if (r.chance(0.08) && LongItem<T>::make(r, li)) { var_opt_sketch<T> one(max_k); vo_fill(one, r.below(5), r, 0); one.update(li, 1e12); sk->update(one); has_long = true; } }
   describe(fam + " max_k=" + std::to_string(max_k) + " inputs=" + std::to_string(inputs));
   const auto res0 = sk->get_result();
   count(fam + (inputs == 0 ? "_empty" : (res0.get_n() > res0.get_num_samples() ? "_estimation" : "_exact")));
@@ -176,7 +181,8 @@ static void case_varopt_union(Rng& r) {
   o.advertised = [](const S& s) { return static_cast<long long>(s.get_serialized_size_bytes(SD())); };
   o.observe = observe_vou<T>;
   o.cont = [](S& s, Rng& cr) { vou_feed(s, static_cast<unsigned>(cr.range(0, 3)), cr); };
-  roundtrip(o, *sk, r, G().cur_desc);
+  const Result res = roundtrip(o, *sk, r, G().cur_desc);
+  if (has_long && res.ok && res.image.size() > 65536) count("varopt_union_long_string_in_image");
 }
 
 #endif
@@ -237,6 +243,8 @@ static void case_ebpps(Rng& r) {
     sk->merge(other);
     n = sk->get_n();
   }
+  bool has_long = false;
+  { T li; if (cls >= 1 && cls <= 6 && r.chance(0.1) && LongItem<T>::make(r, li)) { sk->update(li, 1e15); has_long = true; } }   // > 64 KiB item, far heavier than everything else
   describe(fam + " k=" + std::to_string(k) + " " + desc + " n=" + std::to_string(n));
   count(fam + "_" + desc);
   { const double c = sk->get_c(); if (c != std::floor(c)) count(fam + "_with_partial_item"); else if (!sk->is_empty()) count(fam + "_without_partial_item"); }
@@ -253,7 +261,8 @@ static void case_ebpps(Rng& r) {
     eb_fill(s, cr.chance(0.3) ? cr.below(4) : cr.below(6 * k + 4), cr, cr.chance(0.2));
     if (cr.chance(0.4)) { S other(static_cast<uint32_t>(cr.range(1, 30))); eb_fill(other, cr.below(10 * k), cr, cr.coin()); s.merge(other); }
   };
-  roundtrip(o, *sk, r, G().cur_desc);
+  const Result res = roundtrip(o, *sk, r, G().cur_desc);
+  if (has_long && res.ok && res.image.size() > 65536) count("ebpps_long_string_in_image");
 }
 
 #endif
@@ -333,9 +342,9 @@ static void case_tdigest(Rng& r) {
   describe(std::string(TdName<T>::name()) + " (generating state)");
   typedef tdigest<T> S;
   const std::string base = TdName<T>::name();
-  const unsigned cls = static_cast<unsigned>(r.below(10));
+  const unsigned cls = static_cast<unsigned>(r.below(11));
   // (huge-weight: k >= 100 so that no single centroid of tdigest<float>, whose centroid weights are 32 bit, reaches 2^32)
-  const uint16_t k = static_cast<uint16_t>(cls == 8 ? r.range(100, 200) : (r.chance(0.7) ? r.range(10, 30) : r.range(31, 200)));
+  const uint16_t k = static_cast<uint16_t>(cls == 8 ? r.range(100, 200) : cls == 9 ? r.range(800, 1500) : (r.chance(0.7) ? r.range(10, 30) : r.range(31, 200)));
   const int shape = cls == 8 ? static_cast<int>(r.pick({0, 1, 3})) : static_cast<int>(r.below(4));
   // the unmerged buffer holds up to 4k values before it is folded into the centroids
   uint64_t n = 0; const char* desc = ""; bool compress_after = false;
@@ -349,11 +358,17 @@ static void case_tdigest(Rng& r) {
     case 6: n = 5 * k + r.below(20 * k); compress_after = true; desc = "centroids-only"; break;
     case 7: n = 50 * k + r.below(100 * k); desc = "deep"; break;
     case 8: n = huge_base(r); desc = "huge-weight"; break;
+    case 9: n = 3 * k + r.below(2 * k); desc = "many-centroids"; break;   // the stream reader takes centroids in pieces of 1024
     default: desc = "post-merge"; break;
   }
   std::unique_ptr<S> sk(new S(k));
   if (cls <= 7) td_fill(*sk, n, r, shape);
-  else if (cls == 8) {
+  else if (cls == 9) {
+    td_fill(*sk, n, r, 3);
+    for (unsigned i = 0; i < 14; ++i) { S copy(*sk); sk->merge(copy); }      // the centroid count grows with the total weight
+    if (r.coin()) td_fill(*sk, r.below(k), r, 3);
+    n = sk->get_total_weight();
+  } else if (cls == 8) {
     td_fill(*sk, n, r, shape);
     const unsigned d = huge_doublings(r);
     for (unsigned i = 0; i < d; ++i) { S copy(*sk); sk->merge(copy); }
@@ -398,6 +413,7 @@ static void case_tdigest(Rng& r) {
     if (res.ok && res.image.size() >= 16 && res.image[0] == 2) {
       uint32_t nb; memcpy(&nb, &res.image[12], 4);
       uint32_t nc; memcpy(&nc, &res.image[8], 4);
+      if (nc > 1024) count("tdigest_image_over_1024_centroids"); if (nc > 2048) count("tdigest_image_over_2048_centroids");
       if (with_buffer) count(nb > 0 ? (nc > 0 ? "tdigest_image_centroids_and_buffer" : "tdigest_image_buffer_only") : "tdigest_image_with_buffer_flag_but_empty_buffer");
       else { count("tdigest_image_without_buffer"); VF_CHECK(nb == 0, o.fam + "|image|buffer-count-nonzero", ctx); }
     }
@@ -418,6 +434,11 @@ static std::string observe_dn(const density_sketch<T>& s) {
   for (auto it = s.begin(); it != s.end(); ++it) {
     const auto p = *it;
     std::string x = "(";
+    if (p.first.size() > 16) {     // large dimension: every coordinate goes into a position-dependent hash
+      uint64_t h = p.first.size(); size_t i = 0;
+      for (const T v : p.first) { uint64_t b = 0; memcpy(&b, &v, sizeof(T)); h = mix64(h, b + (++i)); }
+      x += "dim" + std::to_string(p.first.size()) + "#" + std::to_string(h) + " first=" + item_str(p.first.front()) + " last=" + item_str(p.first.back());
+    } else
     for (const T v : p.first) x += item_str(v) + " ";
     pts.push_back(x + ")*" + std::to_string(p.second)); tw += p.second;
   }
@@ -443,9 +464,11 @@ static void case_density(Rng& r) {
   describe(std::string(DnName<T>::name()) + " (generating state)");
   typedef density_sketch<T> S;
   const std::string fam = DnName<T>::name();
-  const uint16_t k = static_cast<uint16_t>(r.range(2, 12));
-  const uint32_t dim = static_cast<uint32_t>(r.range(1, 4));
-  const unsigned cls = static_cast<unsigned>(r.below(8));
+  const bool large_dim = r.chance(0.08);      // the stream reader takes a point in pieces of 4096 coordinates
+  static const uint32_t big_dims[] = {4095, 4096, 4097, 5000, 8192, 8193, 9000, 65537};
+  const uint16_t k = static_cast<uint16_t>(large_dim ? r.range(2, 4) : r.range(2, 12));
+  const uint32_t dim = large_dim ? big_dims[r.below(8)] : static_cast<uint32_t>(r.range(1, 4));
+  const unsigned cls = large_dim ? static_cast<unsigned>(r.range(1, dim > 10000 ? 2 : 4)) : static_cast<unsigned>(r.below(8));
   uint64_t n = 0; const char* desc = "";
   switch (cls) {
     case 0: n = 0; desc = "empty"; break;
@@ -469,6 +492,7 @@ static void case_density(Rng& r) {
   } else { dn_fill(*sk, r.below(20 * k), r); S other(k, dim); dn_fill(other, r.below(20 * k), r); sk->merge(other); n = sk->get_n(); }
   describe(fam + " k=" + std::to_string(k) + " dim=" + std::to_string(dim) + " " + desc + " n=" + std::to_string(n));
   count(fam + "_" + desc);
+  if (dim > 4096) count("density_dim_over_4096"); if (dim > 8192) count("density_dim_over_8192"); if (dim > 65536) count("density_dim_over_65536");
   sig(mix64(mix64(k, dim), mix64(sk->get_n(), sk->get_num_retained() + std::hash<std::string>()(fam))));
   Ops<S> o;
   o.fam = fam;
